@@ -6,7 +6,7 @@
 
 use std::{error::Error, fmt, str::FromStr};
 
-use onig::{Regex, RegexOptions, Syntax};
+use onig::{Regex, RegexOptions, Syntax, SyntaxOperator};
 
 use super::{Matcher, MatcherIO, WalkEntry};
 
@@ -90,12 +90,15 @@ impl RegexMatcher {
         pattern: &str,
         ignore_case: bool,
     ) -> Result<Self, Box<dyn Error>> {
-        let syntax = match regex_type {
+        let mut syntax = *match regex_type {
             RegexType::Emacs => Syntax::emacs(),
             RegexType::Grep => Syntax::grep(),
             RegexType::PosixBasic => Syntax::posix_basic(),
             RegexType::PosixExtended => Syntax::posix_extended(),
         };
+        // As in GNU regex, \` and \' are the beginning and the end of the text in
+        // every syntax (Oniguruma only enables them for emacs).
+        syntax.enable_operators(SyntaxOperator::SYNTAX_OPERATOR_ESC_GNU_BUF_ANCHOR);
 
         let options = if ignore_case {
             RegexOptions::REGEX_OPTION_IGNORECASE
@@ -103,14 +106,15 @@ impl RegexMatcher {
             RegexOptions::REGEX_OPTION_NONE
         };
         // Report errors against the pattern as given.
-        Regex::with_options(pattern, options, syntax)?;
+        Regex::with_options(pattern, options, &syntax)?;
         // The engine stops at the first alternative that matches, so anchor the
-        // end to make it try the others until the whole path is consumed.
+        // end to make it try the others until the whole path is consumed ('$'
+        // would also accept the position before a final newline).
         let anchored = match regex_type {
-            RegexType::PosixExtended => format!("({pattern})$"),
-            _ => format!("\\({pattern}\\)$"),
+            RegexType::PosixExtended => format!("({pattern})\\'"),
+            _ => format!("\\({pattern}\\)\\'"),
         };
-        let regex = Regex::with_options(&anchored, options, syntax)?;
+        let regex = Regex::with_options(&anchored, options, &syntax)?;
         Ok(Self { regex })
     }
 }
